@@ -1,0 +1,54 @@
+//go:build verif && linux && !appengine
+
+package fsnotify
+
+// Contracts for backend_inotify.go and shared.go (inotify build), read by
+// /verif's verification-condition generator. Comment-only; compiled only with
+// -tags verif.
+
+// ---- flag translation (C15): the table below is transcribed from the Watcher
+// documentation in fsnotify.go and inotify(7), not from newEvent's body.
+//@ def specOpInotify(mask uint32) := ite(mask & (unix.IN_CREATE | unix.IN_MOVED_TO) != 0, Create, 0) |
+//@        ite(mask & (unix.IN_DELETE | unix.IN_DELETE_SELF) != 0, Remove, 0) |
+//@        ite(mask & unix.IN_MODIFY != 0, Write, 0) |
+//@        ite(mask & (unix.IN_MOVED_FROM | unix.IN_MOVE_SELF) != 0, Rename, 0) |
+//@        ite(mask & unix.IN_ATTRIB != 0, Chmod, 0) |
+//@        ite(mask & unix.IN_OPEN != 0, xUnportableOpen, 0) |
+//@        ite(mask & unix.IN_ACCESS != 0, xUnportableRead, 0) |
+//@        ite(mask & unix.IN_CLOSE_WRITE != 0, xUnportableCloseWrite, 0) |
+//@        ite(mask & unix.IN_CLOSE_NOWRITE != 0, xUnportableCloseRead, 0)
+
+// ---- rename correlation (C11)
+//@ ghost seenFrom set[uint32]
+//@ ghost lastFrom map[uint32]string
+//@ def firstMatch(c [10]koekje, x uint32) := ite(c[0].cookie == x, c[0].path, ite(c[1].cookie == x, c[1].path, ite(c[2].cookie == x, c[2].path,
+//@        ite(c[3].cookie == x, c[3].path, ite(c[4].cookie == x, c[4].path, ite(c[5].cookie == x, c[5].path, ite(c[6].cookie == x, c[6].path,
+//@        ite(c[7].cookie == x, c[7].path, ite(c[8].cookie == x, c[8].path, ite(c[9].cookie == x, c[9].path, ""))))))))))
+//@ pred RingInv(w *inotify) := w.cookieIndex < 10 &&
+//@        forall(s, uint8, s < 10 && w.cookies[s].cookie != 0 ==> has(seenFrom, w.cookies[s].cookie) && w.cookies[s].path == lastFrom[w.cookies[s].cookie])
+
+//@ owned inotify.cookiesMu: inotify.cookies, inotify.cookieIndex
+//@ confined reader: inotify.cookies, inotify.cookieIndex
+
+//@ func (w *inotify) newEvent(name string, mask uint32, cookie uint32) (e Event)
+//@   requires token(reader) && !held(inotify.cookiesMu)
+//@   requires RingInv(w)
+//@   requires cookie != 0 && mask & unix.IN_MOVED_FROM != 0 ==> !has(seenFrom, cookie)      [C11] "kernel: a rename cookie is used by one move only"
+//@   effect   seenFrom = ite(cookie != 0 && mask & unix.IN_MOVED_FROM != 0, setAdd(old(seenFrom), cookie), old(seenFrom))
+//@   effect   lastFrom = ite(cookie != 0 && mask & unix.IN_MOVED_FROM != 0, set(old(lastFrom), cookie, name), old(lastFrom))
+//@   ensures  e.Name == name                                                                [C01 C02 C08] "the event carries the name it was built for"
+//@   ensures  e.Op == specOpInotify(mask)                                                   [C15 C01 C02] "native flags map to the documented operations; a combination yields the union"
+//@   ensures  RingInv(w)                                                                    [C11 C07]
+//@   ensures  cookie != 0 && mask & unix.IN_MOVED_FROM != 0 ==> e.renamedFrom == "" &&
+//@              w.cookies[old(w.cookieIndex)] == koekje{cookie, name} &&
+//@              forall(s, uint8, s < 10 && s != old(w.cookieIndex) ==> w.cookies[s] == old(w.cookies[s])) &&
+//@              w.cookieIndex == ite(old(w.cookieIndex) == 9, 0, old(w.cookieIndex) + 1) &&
+//@              seenFrom == setAdd(old(seenFrom), cookie) && lastFrom == set(old(lastFrom), cookie, name)    [C11] "a move-out stores its cookie and old name in the next ring slot"
+//@   ensures  cookie != 0 && mask & unix.IN_MOVED_FROM == 0 && mask & unix.IN_MOVED_TO != 0 ==>
+//@              e.renamedFrom == firstMatch(old(w.cookies), cookie)                         [C11] "a move-in looks its cookie up in the ring"
+//@   ensures  cookie != 0 && mask & unix.IN_MOVED_FROM == 0 && mask & unix.IN_MOVED_TO != 0 ==>
+//@              e.renamedFrom == "" || e.renamedFrom == lastFrom[cookie]                    [C11] "the old name is the one of the Rename event produced by the same move, or none"
+//@   ensures  cookie == 0 || mask & (unix.IN_MOVED_FROM | unix.IN_MOVED_TO) == 0 ==> e.renamedFrom == ""     [C11] "a Create that did not result from a move never carries an old name"
+//@   ensures  !(cookie != 0 && mask & unix.IN_MOVED_FROM != 0) ==>
+//@              w.cookies == old(w.cookies) && w.cookieIndex == old(w.cookieIndex) && seenFrom == old(seenFrom) && lastFrom == old(lastFrom)    [C11] "anything else leaves the ring alone"
+//@   ensures  !held(inotify.cookiesMu)                                                      [C05 C07]
